@@ -598,3 +598,30 @@ def projection(inst: Instance, user_ids: List[int], budget_s: float = 4.0) -> Op
     except TimeoutError:
         return None
     return out
+
+
+def cross_check(rep: Report, label: str, func: str, items: List[Tuple[str, Instance, List[int], Callable[[], Set[Tuple[Any, ...]]]]],
+                total_budget_s: float = 8.0, each_s: float = 2.0, what: str = "pattern") -> None:
+    """ENC-X: guards the reference schema itself.  On the cheap instances the projection of the posted constraints onto the
+    caller's variables is enumerated and must equal the graph-theoretic definition; it can only add a violation (with witness)."""
+    rep.rule("ENC-X", "on the small instances the projection of the posted constraints onto the caller's variables equals the graph-theoretic definition (guards the reference schemas; can only add violations)")
+    t0 = time.time()
+    checked = skipped = 0
+    for desc, inst, ids, spec in items:
+        if time.time() - t0 > total_budget_s:
+            skipped += 1
+            continue
+        proj = projection(inst, ids, budget_s=each_s)
+        if proj is None:
+            skipped += 1
+            continue
+        checked += 1
+        want = spec()
+        acc, rej = sorted(proj - want), sorted(want - proj)
+        if acc or rej:
+            w_ = acc[0] if acc else rej[0]
+            rep.finding("ENC-X", GRAPH, func, f"{label} semantics",
+                        f"{label} on [{desc}]: the posted constraints {'admit' if acc else 'reject'} the {what} {[int(v) if isinstance(v, bool) else v for v in w_]}, "
+                        f"which the definition {'rejects' if acc else 'admits'}")
+            return
+    rep.ok("ENC-X", f"{label}: projection equals the definition on {checked} small instances ({skipped} skipped for budget)", points=checked)
